@@ -488,6 +488,8 @@ func (s *Server) Clear() {
 	// we do not drain InitDoneChannel, because Init is only done once during rapid lifetime
 
 	drainChannel(s.InvokeDoneChan)
+	// an init error cached for the execution environment that has just been reset must not be replayed to invocations of the next one
+	s.setCachedInitErrorResponse(nil)
 	s.Release()
 }
 
